@@ -84,7 +84,7 @@ theorem invL_frame {s s' : St} {t : Tid} (h : InvL s)
 
 /-- pcs that are in none of the classes `InvL` talks about -/
 def PC.neutral : PC → Bool
-  | .s2 | .s2w | .s3 | .n1 | .n2 | .p0 | .x0 | .r0 | .zz | .n0 => false
+  | .s2 | .s2w | .s2f | .s3 | .n1 | .n2 | .p0 | .x0 | .r0 | .zz | .n0 => false
   | _ => true
 
 /-- a step between neutral pcs that touches neither lock nor the wait-set -/
@@ -158,11 +158,45 @@ theorem invL_doS2 {s : St} {t : Tid} (h : InvL s) (hpc : (s.loc t).pc = .s2) :
     exact wake_frame h (t := t) (fun u hu => by simp [hu]) (by simp) (fun u hu => .inl hu) (by simp)
       (by simp [hpc])
   · rw [if_neg hrl]
-    refine invL_frame h (t := t) (fun u hu => by simp [hu]) (by simp [PC.holdsCond, hc])
-      (.inl rfl) (by simpa [PC.holdsRecv] using hr) (.inl rfl)
-      (fun hm => absurd hm hwp) (fun u _ hm => hm) h.waiters_nodup ?_
-    exact wake_frame h (t := t) (fun u hu => by simp [hu]) id (fun u hu => .inl hu)
-      (fun _ => .inr hrl) (by simp [hpc])
+    by_cases hnw : (s.loc t).nowait = true
+    · refine invL_frame h (t := t) (fun u hu => by simp [hu]) (by simp [PC.holdsCond, hc, hnw])
+        (.inl rfl) (by simpa [PC.holdsRecv, hnw] using hr) (.inl rfl)
+        (fun hm => absurd hm hwp) (fun u _ hm => hm) h.waiters_nodup ?_
+      exact wake_frame h (t := t) (fun u hu => by simp [hu]) id (fun u hu => .inl hu)
+        (by simp [hnw]) (by simp [hpc])
+    · refine invL_frame h (t := t) (fun u hu => by simp [hu]) (by simp [PC.holdsCond, hc, hnw])
+        (.inl rfl) (by simpa [PC.holdsRecv, hnw] using hr) (.inl rfl)
+        (fun hm => absurd hm hwp) (fun u _ hm => hm) h.waiters_nodup ?_
+      exact wake_frame h (t := t) (fun u hu => by simp [hu]) id (fun u hu => .inl hu)
+        (fun _ => .inr hrl) (by simp [hpc])
+
+/-- `wait_for_lock=False` after a failed try-lock: leave `with` (free the condition's lock), `serve` returns -/
+theorem invL_doS2f {s : St} {t : Tid} (h : InvL s) (hpc : (s.loc t).pc = .s2f) :
+    InvL { setLoc s t (leaveServe (s.loc t)) with condLock := none } := by
+  have hc := h.has_cond (t := t) (by rw [hpc]; rfl)
+  have hr := h.not_recv (t := t) (by rw [hpc]; rfl)
+  have hwp := h.not_waiter (t := t) (by rw [hpc]; decide)
+  have hn : (afterServe (s.loc t)).neutral = true := by
+    unfold afterServe
+    split
+    · rfl
+    · split <;> rfl
+  have e : ({ setLoc s t (leaveServe (s.loc t)) with condLock := none } : St).loc t = leaveServe (s.loc t) := by
+    simp [setLoc]
+  refine invL_frame h (t := t) (fun u hu => by simp [setLoc, hu]) ?_
+    (.inr (.inr ⟨hc, rfl⟩)) ?_ (.inl rfl)
+    (fun hm => absurd hm hwp) (fun u _ hm => hm) h.waiters_nodup ?_
+  · rw [e]; simp only [leaveServe]
+    generalize afterServe (s.loc t) = p at hn
+    cases p <;> simp_all [PC.neutral, PC.holdsCond]
+  · rw [e]; simp only [leaveServe]
+    generalize afterServe (s.loc t) = p at hn
+    cases p <;> simp_all [PC.neutral, PC.holdsRecv]
+  · refine wake_frame h (t := t) (fun u hu => by simp [setLoc, hu]) id (fun u hu => .inl hu) ?_ ?_
+    · rw [e]; simp only [leaveServe]
+      generalize afterServe (s.loc t) = p at hn
+      intro e'; subst e'; simp [PC.neutral] at hn
+    · simp [hpc]
 
 theorem invL_doS2w {s : St} {t : Tid} (h : InvL s) (hpc : (s.loc t).pc = .s2w) :
     InvL (doS2w s t (s.loc t)) := by
@@ -323,7 +357,10 @@ theorem neutral_ite (c : Prop) [Decidable c] {a b : PC} (ha : a.neutral = true) 
   split <;> assumption
 
 theorem neutral_afterServe (l : Loc) : (afterServe l).neutral = true := by
-  unfold afterServe; split <;> rfl
+  unfold afterServe
+  split
+  · rfl
+  · split <;> rfl
 
 set_option hygiene false in
 /-- close `InvL s'` for a step of `t` between neutral pcs (`h : InvL s`, `hpc : (s.loc t).pc = _`) -/
@@ -347,6 +384,7 @@ theorem invL_run {s s' : St} {t : Tid} (h : InvL s) (hs : stepRun s t = some s')
   case s1 => exact invL_doS1 h hpc hs
   case s2 => subst hs; exact invL_doS2 h hpc
   case s2w => subst hs; exact invL_doS2w h hpc
+  case s2f => subst hs; exact invL_doS2f h hpc
   case zz => exact invL_doZz h hpc hs
   case s2r =>
     unfold doS2r at hs
@@ -396,6 +434,7 @@ theorem invL_run {s s' : St} {t : Tid} (h : InvL s) (hs : stepRun s t = some s')
   case w10 => subst hs; unfold doW10; neutral_step
   case b0 => subst hs; neutral_step
   case bS => subst hs; neutral_step
+  case q1 => subst hs; split <;> neutral_step
 
 theorem invL_init : InvL init := by
   refine ⟨fun t => ?_, fun t => ?_, fun t hm => ?_, ?_, ?_⟩
@@ -427,6 +466,13 @@ theorem invL_step {s s' : St} (a : Actor) (h : InvL s) (hs : step s a = some s')
     simp only [step] at hs
     split at hs
     · rename_i hpc
+      cases hs; neutral_step
+    · cases hs
+  | pollAll t d =>
+    simp only [step] at hs
+    split at hs
+    · rename_i hc
+      have hpc := hc.1
       cases hs; neutral_step
     · cases hs
   | run t => exact invL_run h hs
@@ -515,7 +561,10 @@ theorem disp_ite (c : Prop) [Decidable c] {a b : PC} (ha : a.disp = false) (hb :
   split <;> assumption
 
 theorem disp_afterServe (l : Loc) : (afterServe l).disp = false := by
-  unfold afterServe; split <;> rfl
+  unfold afterServe
+  split
+  · rfl
+  · split <;> rfl
 
 theorem invD_frame {s s' : St} {t : Tid} (h : InvD s)
     (hne : ∀ u, u ≠ t → s'.loc u = s.loc u) (ht : (s'.loc t).ok = true) : InvD s' := by
@@ -548,6 +597,10 @@ theorem invD_run {s s' : St} {t : Tid} (h : InvD s) (hs : stepRun s t = some s')
   case s1 => unfold doS1 at hs; split at hs <;> cases hs; nondisp_step
   case s2 => subst hs; unfold doS2; split <;> nondisp_step
   case s2w => subst hs; unfold doS2w; nondisp_step
+  case s2f =>
+    subst hs
+    exact invD_frame h (t := t) (fun u hu => by simp [setLoc, hu])
+      (ok_of_not_disp (by simp [setLoc, leaveServe, disp_afterServe]))
   case zz =>
     unfold doZz at hs
     split at hs
@@ -613,6 +666,7 @@ theorem invD_run {s s' : St} {t : Tid} (h : InvD s) (hs : stepRun s t = some s')
   case w10 => subst hs; unfold doW10; nondisp_step
   case b0 => subst hs; nondisp_step
   case bS => subst hs; nondisp_step
+  case q1 => subst hs; split <;> nondisp_step
 
 theorem invD_init : InvD init := fun _ => rfl
 
@@ -629,6 +683,11 @@ theorem invD_step {s s' : St} (a : Actor) (h : InvD s) (hs : step s a = some s')
     · cases hs; nondisp_step
     · cases hs
   | stop t =>
+    simp only [step] at hs
+    split at hs
+    · cases hs; nondisp_step
+    · cases hs
+  | pollAll t d =>
     simp only [step] at hs
     split at hs
     · cases hs; nondisp_step
